@@ -21,7 +21,8 @@ MANIFEST = dict(
          'Blockfrost, Ogmios v5, Ogmios v6, Kupo, cardano-cli, parse_X (render_X us) = Ok outs with every out faithful to its '
          'UTxO: same tx ref, address, lovelace, exactly the same quantity for every (policy, name), exactly the same key set, '
          'well-formed dicts, datum hash / inline datum / reference script as the service reports them; helper lemmas hex round '
-         'trip, 56-character unit split, policy.name split; refuted outside script_supported (known finding). The JSON text '
+         'trip, 56-character unit split, policy.name split; two _refuted lemmas for the known findings (unsupported reference '
+         'script kinds; cardano-cli inline datums with non-int/bytes or repeated map keys). The JSON text '
          'served to the real adapters is computed by the Coq render_X; model = adapter output exactly on every case; the '
          'proved-sound oracle runs on the adapter outputs.',
     note='Trusted: Coq kernel+vm_compute; render_X as transcription of the service documentation; hand model parse_X tied by exact '
@@ -42,6 +43,9 @@ TRUSTED = [
     'bytes involved',
 ]
 ASSUMPTIONS = [
+    'regions carved out by decidable premises and refuted in Coq (known findings): script_supported (native reference scripts on '
+    'Ogmios v5/v6, Kupo, cardano-cli; PlutusV3 on cardano-cli) and wf_pdata for cardano-cli inline datums (map keys ints/bytes, '
+    'pairwise distinct); a failing case gets a region tag only if the faithful model predicts the adapter output exactly',
     'Address.from_primitive(text) is opaque in the model (the text is carried); the returned Address is compared by its '
     're-encoded text and by its raw bytes against an address pool decoded by an independent bech32 decoder',
     'Blockfrost pagination (>= 100 UTxOs per page), HTTP error paths, caches (TTL/LRU) and spent Kupo matches are outside the model',
@@ -52,6 +56,7 @@ ASSUMPTIONS = [
 SVCS = ['blockfrost', 'ogmios_v5', 'ogmios_v6', 'kupo', 'cli']
 COQ_SVC = {'blockfrost': 'Blockfrost', 'ogmios_v5': 'OgmiosV5', 'ogmios_v6': 'OgmiosV6', 'kupo': 'Kupo', 'cli': 'Cli'}
 REGION = 'script_unsupported'
+REGION_DATUM = 'cli_datum_map_key'
 
 HEADER0 = '''From Coq Require Import Uint63.
 From Coq Require Import NArith ZArith Ascii String List Bool.
@@ -282,6 +287,42 @@ def gen_case(rng, svc, region=False):
 
 def in_region(case):
     return any(not supported(case['svc'], u['script']) for u in case['utxos'])
+
+
+def pdata_wf(d):
+    """wf_pdata of Adapters.v: map keys are ints / byte strings, pairwise distinct (what a Python dict keeps apart)."""
+    k = d[0]
+    if k == 'constr':
+        return d[1] >= 0 and all(pdata_wf(x) for x in d[2])
+    if k == 'list':
+        return all(pdata_wf(x) for x in d[1])
+    if k == 'map':
+        keys = [a for a, _ in d[1]]
+        return (all(a[0] in ('int', 'bytes') for a in keys) and all(keys[i] != keys[j] for i in range(len(keys)) for j in range(i))
+                and all(pdata_wf(b) for _, b in d[1]))
+    return True
+
+
+def in_datum_region(case):
+    return case['svc'] == 'cli' and any(u['datum'][0] == 'inline' and not pdata_wf(u['datum'][3]) for u in case['utxos'])
+
+
+def gen_datum_region_case(rng):
+    """cardano-cli response with one inline datum whose Plutus map has a non-int/bytes key or a repeated key."""
+    c = gen_case(rng, 'cli')
+    u = c['utxos'][rng.randrange(len(c['utxos']))]
+    val = gen_pdata(rng, 1)
+    if rng.random() < 0.5:
+        key = rng.choice([['constr', 0, []], ['list', []], ['map', []], ['constr', 1, [['int', 1]]]])
+        m = ['map', [[['int', 7], ['int', 0]], [key, val]]]
+    else:
+        key = rng.choice([['int', 1], ['bytes', 'aa'], ['bytes', '']])
+        m = ['map', [[key, ['int', 1]], [['int', 2], val], [key, ['int', 2]]]]
+    pd = m if rng.random() < 0.5 else ['constr', 0, [['int', 5], m]]
+    raw = pdata_cbor(pd)
+    u['datum'] = ['inline', hashlib.blake2b(raw, digest_size=32).hexdigest(), raw.hex(), pd]
+    assert in_datum_region(c)
+    return c
 
 
 # ---------------------------------------------------------------- Coq literals
@@ -567,6 +608,8 @@ def classify(case, res, model_agrees):
         return 'exception'
     if in_region(case) and model_agrees and 'err' in res:
         return REGION                # the adapter raises exactly as the faithful model says it does for this script kind
+    if in_datum_region(case) and not in_region(case) and model_agrees:
+        return REGION_DATUM          # raises / collapses the map exactly as the faithful model of from_dict does
     return 'unfaithful'
 
 
@@ -578,11 +621,13 @@ def gen_cases(ctx, per_svc, n_region):
     for svc in ('ogmios_v5', 'ogmios_v6', 'kupo', 'cli'):
         for _ in range(n_region):
             cases.append(gen_case(ctx.rng, svc, region=True))
+    for _ in range(2 * n_region):
+        cases.append(gen_datum_region_case(ctx.rng))
     return cases
 
 
 def correspond(ctx, per_svc=None):
-    per_svc = per_svc or ctx.n(300, 8000)
+    per_svc = per_svc or ctx.n(300, 5000)
     cases = gen_cases(ctx, per_svc, ctx.n(6, 40))
     t0 = time.time()
     docs, results, mism, ofail, errs = run(cases)
@@ -590,11 +635,12 @@ def correspond(ctx, per_svc=None):
         raise RuntimeError('harness failure: ' + errs[0])
     hist = {s: 0 for s in SVCS}
     feat = dict(ada_only=0, multi_name_policy=0, empty_name=0, qty_ge_2_63=0, datum_hash=0, datum_hash_resolved=0, inline_datum=0,
-                plutus_script=0, native_script=0, wrapped_script=0, shuffled_flat_order=0, multi_utxo=0, region_cases=0)
+                plutus_script=0, native_script=0, wrapped_script=0, shuffled_flat_order=0, multi_utxo=0, region_cases=0, datum_region_cases=0)
     for c in cases:
         hist[c['svc']] += 1
         feat['multi_utxo'] += len(c['utxos']) > 1
         feat['region_cases'] += in_region(c)
+        feat['datum_region_cases'] += in_datum_region(c)
         for u in c['utxos']:
             feat['ada_only'] += not u['assets']
             feat['multi_name_policy'] += any(len(ns) > 1 for _, ns in u['assets'])
@@ -621,7 +667,8 @@ def correspond(ctx, per_svc=None):
              'hex-looking and "."/"#" names, quantities from a boundary set up to 2^70, ADA-only entries, grouped or shuffled '
              'flat order, no datum / datum hash (resolvable or not) / inline datum with a generated Plutus-data value, no script / '
              'Plutus v1-v3 (plain or CBOR-wrapped at the script endpoint) / native script), rendered to JSON text by the Coq '
-             'render_X; plus a few responses per adapter inside the known-finding region; non-trivial = some UTxO has >= 2 '
+             'render_X; plus a few responses inside each known-finding region (unsupported reference script kinds; cardano-cli '
+             'inline datums with non-int/bytes or repeated map keys); non-trivial = some UTxO has >= 2 '
              'assets, a datum or a script; distinct by hash',
         samples=[{'input': cases[0], 'served': docs[0], 'impl': results[0]},
                  {'input': cases[len(cases) // 2], 'served': docs[len(cases) // 2], 'impl': results[len(cases) // 2]}],
@@ -633,14 +680,14 @@ def correspond(ctx, per_svc=None):
                  'address bytes against the independently decoded pool',
         correspond_s=round(time.time() - t0, 1),
         mismatches=[pack(i) for i in sorted(mism)[:20]],
-        oracle_fail=[pack(i) for i in sorted(ofail, key=lambda i: (in_region(cases[i]), i))[:60]],
+        oracle_fail=[pack(i) for i in sorted(ofail, key=lambda i: (in_region(cases[i]) or in_datum_region(cases[i]), i))[:80]],
     )
 
 
 def search(ctx, mism):
     ctx.rng.seed(f'search-{ctx.seed}')
     r = correspond(ctx, 800 if ctx.quick else 12000)
-    bad = [f for f in r['oracle_fail'] if f['region'] != REGION]
+    bad = [f for f in r['oracle_fail'] if f['region'] not in (REGION, REGION_DATUM)]
     return bad[0] if bad else None
 
 
